@@ -58,6 +58,9 @@ def run(ck):
                "extracted C spec ceval (O).  asm mode: trees rendered with minimal and with full parentheses, numbers "
                "in bases 2/10/16, symbols defined before/after, observed through @dw; expected bytes from ceval. "
                "non-trivial = contains at least one operator; distinct by hash of (tree, rendering).")
+    import gen_tables, gen_expr
+    gen_tables.generate()
+    ck.extra["translator_expr_arms"] = gen_expr.generate()
     ck.proof = proof_leg(PROP)
     if not ck.proof["ok"]:
         ck.violation("proof leg failed: " + ck.proof["detail"][:400],
